@@ -12,6 +12,9 @@ COMMON_ASSUMPTIONS = [
     "A-PY: Python semantics as encoded by pyvc",
     "A-TYPES: arguments have the annotated types",
     "A-LOOP: asyncio runs one callback at a time; code between two suspension points / call-outs is atomic",
+    "component contract (assume/guarantee): the connection sees its frame helper only through write_packets (one recorded write, or OSError/RuntimeError/"
+    "ConnectionResetError), close (marks it closed, never calls back), set_log_name and ready_future - the behaviour proved for the real helpers under C02/C03/C04/C08; "
+    "host resolution through async_resolve_host (returns addresses or raises APIConnectionError: C20)",
     "A-CALLBACK: user callbacks (subscribers, the stop callback) may re-enter the public API of the connection (modelled by the Step* havoc) but do not feed packets into it and return to their caller",
     "A-SETITER: iterating a Python set visits each member exactly once",
     "A-PROTOBUF: klass() builds an empty message of that class, MergeFromString fills it or raises DecodeError, SerializeToString is injective",
@@ -485,7 +488,8 @@ def complex_contract(n_types=1, n_msgs=1):
         requires=[("timeout-positive", "timeout > 0")],
         cutpoints={"await#1": dict(
             check=[("request-written-once-before-waiting", f"writes == (({exp}{',' if n_msgs == 1 else ''}),)", ["C11"]),
-                   ("registered-in-the-same-turn-as-the-write", f"n_cuts == 0 and {reg} and is_collector(on_message, fut, responses, {AP}, {SP})", ["C11"]),
+                   # (C09 too: the call's time bound rests on the registered handler being the pure collector, which never touches the timer)
+                   ("registered-in-the-same-turn-as-the-write", f"n_cuts == 0 and {reg} and is_collector(on_message, fut, responses, {AP}, {SP})", ["C11", "C09"]),
                    ("waiter-registered", "set_has(self._read_exception_futures, fut) and not fdone(fut)", ["C11", "C08"]),
                    ("own-timeout-armed", "armed(timeout_handle) and timer_when(timeout_handle) == ghost.now + timeout", ["C11", "C09"])],
             havoc_typed={"responses": "list[obj[Message]]"},
@@ -683,6 +687,31 @@ def resolve_host_contract():
               raises={"APIConnectionError": {"kind": "property", "ensures": keep}, "CancelledError": {"kind": "auxiliary", "ensures": keep}}, tags=["C09"])
 
 
+def init_contract():
+    """The constructor establishes Inv_conn (every other method is proved from it) and the documented keepalive ratio."""
+    from pyvc.contracts import Clause
+    import asyncio
+
+    def _setup(eng, st):
+        for r in cm.REGIONS:
+            region(eng, st, r)
+        g = st.heap[st.ghost_oid]
+        g.f["stop_calls"] = VInt(0)
+        g.f["graceful"] = VBool(False)
+        g.f["in_phase"] = VBool(False)
+        g.f["ever_connected"] = VBool(False)
+        g.f["on_stop_given"] = VBool(simp(z3.Not(is_none(st.env.f["on_stop"]))))
+        eng.builtins[id(asyncio.get_event_loop)] = lambda e, s, a, k: ok(s, VObj(z3.Const("the_loop", ObjS), "Loop"))
+    ens = [Clause("Inv:" + n, t, "property", tags) for n, t, tags in cm.INV]
+    ens += [P("C05", "starts-initialized", f"{S} is CS.INITIALIZED and not self.is_connected and not self._handshake_complete and self._fatal_exception is None"),
+            P("C10", "pong-deadline-is-4.5-keepalive-intervals", "self._keep_alive_interval == params.keepalive and self._keep_alive_timeout == params.keepalive * 4.5"),
+            P("C07", "stop-callback-kept", "self.on_stop is on_stop and not self._expected_disconnect")]
+    c = Contract(CONN + "APIConnection.__init__", self_type="inst[APIConnection]", setup=_setup,
+                 params={"params": "dataclass[ConnectionParams]", "on_stop": "opt[callable[StopCb]]", "debug_enabled": "bool", "log_name": "opt[str]"},
+                 ensures=ens, tags=["C05", "C07", "C08", "C09", "C10"])
+    return c
+
+
 def socket_connect_contract():
     """The TCP connect loop over aiohappyeyeballs (one attempt per remaining address family, 60 s each), then the socket options.
     A-LIB(aiohappyeyeballs): start_connection returns a connected socket or raises OSError; pop_addr_infos_interleave shortens a
@@ -694,11 +723,12 @@ def socket_connect_contract():
               # start_connection advances the state before its next suspension point
               exit_relaxed=("I4-init-has-nothing",),
               ensures=[P("C05", "socket-attached", "self._socket is not None"), frame],
-              raises={"APIConnectionError": {"kind": "property", "tags": ["C09"],
+              raises={"APIConnectionError": {"kind": "property", "tags": ["C09", "C08"],
                                              "ensures": [("connect-failures-are-classified", "exact_type(exc, TimeoutAPIError) or exact_type(exc, SocketAPIError)"),
-                                                         ("no-socket-attached", "self._socket is None"), frame]},
+                                                         ("no-socket-attached", "self._socket is None and not opened_socket"), frame]},
                       # a failing setsockopt/getpeername on the fresh socket: wrapped by start_connection (its own obligation), the socket is attached and released there
-                      "OSError": {"kind": "auxiliary", "ensures": [frame]},
+                      "OSError": {"kind": "property", "tags": ["C08"],
+                                  "ensures": [("an-opened-socket-is-attached-so-that-the-cleanup-closes-it", "implies(opened_socket, self._socket is not None)"), frame]},
                       "CancelledError": {"kind": "auxiliary", "ensures": [frame, ("no-socket-attached", "self._socket is None")]}},
               loops={"loop#1": dict(
                   types={"sock": "opt[obj[Socket]]", "last_exception": "opt[exc[Exception]]"},
@@ -706,13 +736,15 @@ def socket_connect_contract():
                              "last_exception is None or typeof_is(last_exception, OSError)"] + loop_inv_step(),
                   decreases="len(addr_infos)",
                   modifies=all_mods())},
-              tags=["C05", "C09"])
+              tags=["C05", "C08", "C09"])
 
 
 def init_frame_helper_contract():
     return mk(
         "_connect_init_frame_helper", dispatches=True, phase_owner=True, has_awaits=True,
-        requires=[("socket-opened", "self._socket is not None"), ("in-finish-phase", "ghost.in_phase"), ("no-helper-yet", "self._frame_helper is None")],
+        requires=[("socket-opened", "self._socket is not None"), ("in-finish-phase", "ghost.in_phase"),
+                  # (C05/C08) a second handshake on an object that already has a helper would restart the state machine and leak the first helper
+                  Clause_("no-helper-yet", "self._frame_helper is None", "property", ["C05", "C08"])],
         cutpoints={"await#3": dict(exc_classes=["Exception"]), "await#1": {}, "await#2": {}},
         ensures=[P("C05", "handshake-complete-only-from-an-open-connection", f"{S} is CS.HANDSHAKE_COMPLETE and self._frame_helper is not None")],
         raises={"Exception": {"kind": "auxiliary"}, **CANCEL},
@@ -994,7 +1026,7 @@ def ALL():
     cs = [cleanup_contract(), report_fatal_error_contract(), send_messages_callee(), process_packet_contract(), ping_handler_contract(),
           time_handler_contract(), disconnect_handler_contract(), force_disconnect_contract(), send_keep_alive_contract(),
           pong_not_received_contract(), hello_resp_contract(), login_resp_contract(), make_connect_request_contract(), wrap_contract(),
-          handle_timeout_contract(), handle_complex_message_contract(), set_state_callee(), resolve_host_contract(), socket_connect_contract(),
+          handle_timeout_contract(), handle_complex_message_contract(), set_state_callee(), resolve_host_contract(), socket_connect_contract(), init_contract(),
           init_frame_helper_contract(), hello_login_dispatch(), complex_dispatch(),
           callee_on_record("_process_hello_resp", "HelloResponse", hello_resp_contract, "hello_checked"),
           callee_on_record("_process_login_response", "ConnectResponse", login_resp_contract, "login_checked"), phase_contract("start"), phase_contract("finish"), single_response_contract(), disconnect_contract()]
